@@ -52,7 +52,7 @@ def file_path(root, loc, sfx):
     if loc == "sys":
         return os.path.join(root, "sys", "invoke." + sfx)
     if loc == "usr":
-        return os.path.join(root, "usr", ".invoke." + sfx)
+        return os.path.join(root, ".invoke." + sfx)
     if loc.startswith("proj"):
         return os.path.join(root, loc, "invoke." + sfx)
     return os.path.join(root, "rt", loc + "." + sfx)
@@ -68,7 +68,9 @@ def write_fs(root, fs):
             os.makedirs(path)            # open() -> IsADirectoryError (errno 21)
             continue
         if "empty" in entry:
-            open(path, "w").close()
+            with open(path, "w") as f:
+                if sfx == "json":
+                    f.write("null")          # json.load -> None, like an empty YAML document
             continue
         data = gt.unjson(entry["data"])
         with open(path, "w") as f:
@@ -104,7 +106,8 @@ def make_class(global_defaults=None, env_prefix=None):
 
 
 PATH_OPS = ("get", "set", "del", "pop", "popitem", "clear", "setdefault", "update",
-            "contains", "len", "keys")
+            "contains", "len", "keys", "view", "eq", "getm", "update_both", "update_proxy",
+            "rawset", "leafappend")
 
 
 class Session:
@@ -114,6 +117,8 @@ class Session:
         self.case = case
         self.root = tempfile.mkdtemp(dir=scratch_root())
         write_fs(self.root, case["fs"])
+        self.saved_home = os.environ.get("HOME")
+        os.environ["HOME"] = self.root      # "~" forms of prefixes / paths point into the scratch dir
         self.saved_env = None
         self.sources = []     # (label, live object, deep snapshot) for C11
         self.keep_sources = keep_sources
@@ -121,6 +126,10 @@ class Session:
         self.handles = {}     # held proxies: id -> DataProxy
 
     def close(self):
+        if self.saved_home is None:
+            os.environ.pop("HOME", None)
+        else:
+            os.environ["HOME"] = self.saved_home
         shutil.rmtree(self.root, ignore_errors=True)
 
     # -- data handed to the config: fresh objects, remembered for snapshots
@@ -131,16 +140,26 @@ class Session:
         return obj
 
     def rt_path(self, rt):
-        return None if rt is None else file_path(self.root, rt[0], rt[1])
+        if rt is None:
+            return None
+        if self.case.get("init", {}).get("tilde"):
+            return "~/rt/%s.%s" % (rt[0], rt[1])
+        return file_path(self.root, rt[0], rt[1])
 
     def proj_path(self, loc):
-        return None if loc is None else os.path.join(self.root, loc)
+        if loc is None:
+            return None
+        if self.case.get("init", {}).get("tilde"):
+            return "~/" + loc
+        return os.path.join(self.root, loc)
 
     def construct(self):
         init = self.case["init"]
         kw = {"system_prefix": os.path.join(self.root, "sys") + os.sep,
-              "user_prefix": os.path.join(self.root, "usr") + os.sep + ".",
+              "user_prefix": self.root + os.sep + ".",
               "lazy": bool(init.get("lazy"))}
+        if init.get("tilde"):
+            del kw["user_prefix"]          # the default "~/." with HOME = scratch dir
         if init.get("defaults") is not None:
             kw["defaults"] = self.supply("init.defaults", init["defaults"])
         if init.get("overrides") is not None:
@@ -232,7 +251,42 @@ class Session:
             if name == "len":
                 return cfg, {"nat": len(obj)}
             if name == "keys":
-                return cfg, {"keys": list(obj.keys())}
+                how = op[3] if len(op) > 3 else "keys"
+                return cfg, {"keys": list(obj) if how == "iter" else list(obj.keys())}
+            if name == "view":
+                how = op[3]
+                if how == "items":
+                    v = dict(obj.items())
+                elif how == "values":
+                    v = dict(zip(obj.keys(), obj.values()))
+                else:
+                    v = obj
+                return cfg, {"val": gt.jsonable(gt.deep_view(v))}
+            if name == "eq":
+                other = copy.deepcopy(gt.deep_view(obj))
+                if not op[3]:
+                    other["__other__"] = 1
+                return cfg, {"bool": bool(obj == other)}
+            if name == "getm":
+                v = obj.get(op[3]) if op[4] is None else obj.get(op[3], gt.unjson(op[4]["d"]))
+                return cfg, {"val": gt.jsonable(gt.deep_view(v))}
+            if name == "update_both":
+                obj.update(dict((k, gt.unjson(v)) for k, v in op[3]),
+                           **dict((k, gt.unjson(v)) for k, v in op[4]))
+                return cfg, {"none": 1}
+            if name == "update_proxy":
+                src = self.nav(cfg, fl, op[3], rng)
+                obj.update(src)
+                return cfg, {"none": 1}
+            if name == "rawset":
+                how = op[6] if len(op) > 6 else "get"
+                r = obj.setdefault(op[3]) if (how == "setdefault" and op[3] in obj) else obj.get(op[3])
+                r[op[4]] = gt.unjson(op[5])
+                return cfg, {"none": 1}
+            if name == "leafappend":
+                lst = getattr(obj, op[3]) if fl == "attr" else obj[op[3]]
+                lst.append(op[4])
+                return cfg, {"none": 1}
         if name == "load_defaults_d":
             cfg.load_defaults(self.supply("load_defaults", op[1]), merge=False)
         elif name == "load_overrides_d":
@@ -260,6 +314,7 @@ class Session:
             try:
                 os.environ.clear()
                 os.environ.update(op[1])
+                os.environ["HOME"] = self.root
                 cfg.load_shell_env()
             finally:
                 os.environ.clear()
@@ -330,7 +385,9 @@ def schema(rng, depth=3, width=3, keys=SAFE_KEYS, kinds="nbis", p_section=0.45):
 
 
 def instance(rng, sch, p_keep=0.6, kinds=None, same_kind=0.92):
-    """a random sub-tree of the schema with concrete leaf values"""
+    """a random sub-tree of the schema with concrete leaf values; ``kinds``: the
+    leaf kinds this level can hold (a tuple cannot be written to YAML/JSON: it
+    becomes a list there)"""
     out = {}
     for k, v in sch.items():
         if rng.random() >= p_keep:
@@ -339,6 +396,8 @@ def instance(rng, sch, p_keep=0.6, kinds=None, same_kind=0.92):
             out[k] = instance(rng, v, p_keep, kinds, same_kind)
         else:
             kind = v if (kinds is None or rng.random() < same_kind) else rng.choice(kinds)
+            if kinds is not None and kind not in kinds:
+                kind = "l" if (kind == "t" and "l" in kinds) else rng.choice(kinds)
             out[k] = gt.leaf(rng, kind)
     if rng.random() < 0.5:
         items = list(out.items())
@@ -392,7 +451,7 @@ def c_tree(t):
 def c_fentry(e):
     if "ioerr" in e:
         return "FIOErr"
-    if "empty" in e:
+    if "empty" in e:        # empty YAML document or JSON null: the loader returns None
         return "(FData (Leaf VNone))"
     return "(FData %s)" % c_tree(e["data"])
 
@@ -459,6 +518,21 @@ def c_op(op):
         return "(Len %s %s)" % (c_fl(op[1]), c_path(op[2]))
     if n == "keys":
         return "(Keys %s %s)" % (c_fl(op[1]), c_path(op[2]))
+    if n == "view":
+        return "(View %s %s)" % (c_fl(op[1]), c_path(op[2]))
+    if n == "eq":
+        return "(EqD %s %s %s)" % (c_fl(op[1]), c_path(op[2]), ct.b(bool(op[3])))
+    if n == "getm":
+        return "(GetM %s %s %s %s)" % (c_fl(op[1]), c_path(op[2]), ct.s(op[3]), c_opt_tree(op[4]))
+    if n == "update_both":
+        f = lambda kvs: ct.lst([ct.pair(ct.s(k), c_tree(v)) for k, v in kvs])
+        return "(UpdateBoth %s %s %s %s)" % (c_fl(op[1]), c_path(op[2]), f(op[3]), f(op[4]))
+    if n == "update_proxy":
+        return "(UpdateProxy %s %s %s)" % (c_fl(op[1]), c_path(op[2]), c_path(op[3]))
+    if n == "rawset":
+        return "(RawSet %s %s %s %s %s)" % (c_fl(op[1]), c_path(op[2]), ct.s(op[3]), ct.s(op[4]), c_tree(op[5]))
+    if n == "leafappend":
+        return "(LeafAppend %s %s %s %s)" % (c_fl(op[1]), c_path(op[2]), ct.s(op[3]), ct.s(op[4]))
     if n == "load_defaults_d":
         return "(LoadDefaultsD %s)" % c_tree(op[1])
     if n == "load_overrides_d":
